@@ -82,22 +82,22 @@ var props = map[string]*propCfg{
 
 func init() {
 	seqAssume := []string{"single-threaded by construction: the simulated environment (clock, entropy, PRNG words, map order, I/O peers) is the only nondeterminism"}
-	props["C02"] = &propCfg{ID: "C02", Engine: "C", Pkgs: "listz", Imports: "time=stime,math/rand=smrand,sync=csync", Level: "exploration", QuickS: 20, ThorS: 480,
+	props["C02"] = &propCfg{ID: "C02", Engine: "C", Pkgs: "listz", Imports: "time=stime,math/rand=smrand,sync=csync,runtime=sruntime", Level: "exploration", QuickS: 20, ThorS: 480,
 		Real:   []string{"listz/skip.go, listz/skip_cmp.go, listz/iter.go (every statement)", "math/rand.Rand arithmetic on top of the simulated source"},
 		Stubs:  []string{"math/rand source (tower-height words from the run seed, per-run distribution)", "time.Now (seed of the list's PRNG)"},
 		Rule:   "cases = (list flavour and key type/comparator, start state New/Init/zero value, tower-word distribution, 2..60 operations over every method with bounds from present/absent/gap keys) drawn from the run seed; non-trivial = the list drew tower words under a non-production distribution or built a tower of >=3 levels, or started from the zero value; distinct = distinct hash of (params, operations, env seed) over such runs",
 		Assume: seqAssume}
-	props["C03"] = &propCfg{ID: "C03", Engine: "C", Pkgs: "listz,setz", Imports: "time=stime,math/rand=smrand,sync=csync", Level: "exploration", QuickS: 20, ThorS: 480,
+	props["C03"] = &propCfg{ID: "C03", Engine: "C", Pkgs: "listz,setz", Imports: "time=stime,math/rand=smrand,sync=csync,runtime=sruntime", Level: "exploration", QuickS: 20, ThorS: 480,
 		Real:   []string{"setz/roaring_bitmap.go, setz/iter.go, setz/bits.go, listz/skip.go (every statement)"},
 		Stubs:  []string{"math/rand source of the embedded bucket skip list (tower-height words from the run seed)", "time.Now (seed of that PRNG)"},
 		Rule:   "cases = (bucket keys, tower-word distribution, operations Add/Remove/Contains/Len, arithmetic runs of 300..5000 values added/removed ascending/descending/shuffled so buckets cross 4096 both ways, enumerations by Iter/Range/All complete and early-stopped) drawn from the run seed; non-trivial = the bucket list drew >=2 tower words and (a non-production tower distribution was in force or a conversion/emptying/re-population probe fired); distinct = distinct hash of (params, operations, env seed) over such runs",
 		Assume: seqAssume}
-	props["C20"] = &propCfg{ID: "C20", Engine: "C", Pkgs: "randz", Imports: "time=stime,crypto/rand=scrand,math/rand=smrand,sync=csync,github.com/welllog/golib/hashz=shashz", Level: "exploration", QuickS: 20, ThorS: 480,
+	props["C20"] = &propCfg{ID: "C20", Engine: "C", Pkgs: "randz", Imports: "time=stime,crypto/rand=scrand,math/rand=smrand,sync=csync,github.com/welllog/golib/hashz=shashz,runtime=sruntime", Level: "exploration", QuickS: 20, ThorS: 480,
 		Real:   []string{"randz/id.go, randz/str.go, randz/count.go (every statement)", "math/big and crypto/rand.Int arithmetic on top of the simulated entropy reader"},
 		Stubs:  []string{"time.Since/time.Now (clock trace decided by the run seed)", "crypto/rand.Reader (seeded/extreme bytes, short reads, errors so the math/rand fallback runs)", "math/rand package-level draws and sources", "the rand.Source handed to NewStrGenerator (seeded PRNG)", "hashz.BKDRHash as used by CountGenerator (per-identifier value drawn by the simulator, extremes of [0, 2^31-1] over-represented)"},
 		Rule:   "cases = one of 4 scenarios (IdGenerator under a clock trace and an entropy plan; StrGenerator over a random character set of 1..40 runes of 1-4 bytes; ID numerals and base-32 round trip on random and boundary ids; CountGenerator swept over elapsed times for a random positive rule set) drawn from the run seed, plus one finite table (every byte value at first/middle/last position of valid strings of length 1..13 given to ParseBase32) enumerated exhaustively once per check; non-trivial = an adversarial environment decision actually took place (entropy error/short read/extreme bytes, clock before the start / next to a millisecond boundary / around 2^41 ms, multi-byte or power-of-two character set or more than one source word, boundary ids, equal periods or interval > period); distinct = distinct hash of (params, operations, env seed)",
 		Assume: append([]string{"the ParseBase32 invalid-byte clause is decided by plain exhaustive enumeration of a finite table, not by simulation (DESIGN.md C20)"}, seqAssume...)}
-	props["C18"] = &propCfg{ID: "C18", Engine: "C", Pkgs: "algz", Imports: "sync=csync", MapRange: true, Level: "exploration", QuickS: 20, ThorS: 480,
+	props["C18"] = &propCfg{ID: "C18", Engine: "C", Pkgs: "algz", Imports: "sync=csync,runtime=sruntime", MapRange: true, Level: "exploration", QuickS: 20, ThorS: 480,
 		Real:   []string{"algz/dp.go, algz/graph.go (every statement; range-over-map statements rewritten to iterate a simulator-ordered key list)"},
 		Stubs:  []string{"Go's randomised map iteration order (smap: seeded permutation / ascending / descending per run)"},
 		Rule:   "cases = (item list of <= 10 (thorough 12) items with many equal weights/values, limit 0..sum+2, tie-breaker none/fewer/new, overflow allowed or not) or (undirected graph on <= 9 vertices: random density, disjoint cliques, complete, edgeless, isolated vertices) drawn from the run seed, every map range ordered by the simulator; oracle = brute force over all subsets / vertex sets; non-trivial = at least one map range was ordered by the simulator with a drawn permutation or an extreme order; distinct = distinct hash of (params, operations, env seed) over such runs",
@@ -107,7 +107,7 @@ func init() {
 		Stubs:  []string{"which goroutine proceeds at each statement (seeded choice at every quiescent point)", "task bodies (harness: internal yields, gates that stall them, injected panics)", "clock (synctest fake clock)", "sync.Mutex/RWMutex (channel-based, so that a holder may be parked) and sync.WaitGroup (model with the wake-up-to-recheck window and the real one's misuse panics), sync.Pool (deterministic)"},
 		Rule:   "cases = (limit in {-1,0,1,2,3,5}, handler set or nil, submitter script of Go/Wait over tasks that yield, block on a gate and/or panic with a string, error or struct, followed by limit+1 gate-blocked tasks) drawn from the run seed; a run is non-trivial when >=2 goroutines were parked at once and >=1 switch between goroutines happened; distinct = distinct hash of the sequence of quiescent states (parked goroutines and their statements) and choices",
 		Assume: []string{"testing/synctest (go1.26.8) reports quiescence correctly; between two decisions only the released goroutine and goroutines it unblocks run, each stopping at its next statement"}}
-	props["C09"] = &propCfg{ID: "C09", Engine: "C", Pkgs: "cryptz", Imports: "crypto/rand=scrand,sync=csync", Level: "fault_enumeration", QuickS: 20, ThorS: 480,
+	props["C09"] = &propCfg{ID: "C09", Engine: "C", Pkgs: "cryptz", Imports: "crypto/rand=scrand,sync=csync,runtime=sruntime", Level: "fault_enumeration", QuickS: 20, ThorS: 480,
 		Real:   []string{"cryptz/crypt.go, cryptz/aes.go, strz/enc.go (every statement)", "Go standard crypto (aes, cipher, md5) inside golib", "the real `openssl enc -aes-256-cbc -md md5` binary when present (28 messages both ways per check; optional)"},
 		Stubs:  []string{"crypto/rand.Reader (seeded/extreme bytes, short reads, errors)", "io.Reader peer (7 chunking policies, error after k bytes, data together with EOF or error, zero-length reads)", "io.Writer peer (error after k bytes)", "storage/transport medium (bit flips per field, truncation, extension, text substitution, wrong secret/AAD)", "the caller's own buffers (plaintext, additional data, key and message buffers overwritten in place between calls)", "sync.Pool if used (deterministic pool, emptied and ordered by the run seed)"},
 		Rule:   "cases = (scenario of 9 classes, plaintext/secret/AAD lengths, generic instantiation string|[]byte, entropy plan, reader and writer chunking policies, fault position, medium fault kind/position/bit) drawn from the run seed, fault-free and faulted classes kept apart; non-trivial = at least one fault or non-default peer behaviour actually fired (short/zero/EOF-with-data read, peer error, entropy error/short read/extreme bytes, medium fault, garbage input); distinct = distinct hash of (params, env seed) over such runs",
@@ -119,6 +119,11 @@ func init() {
 		p := props[id]
 		p.Real = append(p.Real, "a companion worker (harness/cmd/conf) built with the Go race detector from the UNREWRITTEN tree: two or three simulated threads, each with instances and arguments of its own, interleaved at operation granularity by the Engine-A scheduler")
 		p.Rule += "; the companion worker's runs (threads with private instances) are counted with the others"
+	}
+	for id, p := range props {
+		if id != "C19" {
+			p.Stubs = append(p.Stubs, "runtime.GOMAXPROCS/NumCPU (processor count of the simulated machine: one of 1,2,3,4,8,16,64,100 per worker process, derived from the seed)")
+		}
 	}
 }
 
@@ -692,10 +697,14 @@ func checkCmd(p *propCfg, tier, repo string, writeEvidence bool) int {
 		// select over several ready channels, whose choice the Go runtime draws).  On the
 		// unchanged tree this never happens.  A violation found in such a run is still a real
 		// execution of the real code: it is reported if a fresh process reproduces its class,
-		// without the exact-replay guarantee; with no violation the run is machinery trouble.
+		// without the exact-replay guarantee.  With no violation the property held on everything
+		// explored, which is what exit 0 says (a correct change that, say, picks a stripe by
+		// hashing an address is no reason for an alarm); the evidence file records that the
+		// executions of this run cannot be replayed exactly.  VERIF_STRICT_DETERMINISM=1 turns it
+		// into machinery trouble (exit 2).
 		fmt.Fprintf(os.Stderr, "verifctl: determinism self-check FAILED: same seeds produced different event logs (the code under test has nondeterminism the simulator does not own)\n")
 		nondetCode = true
-		if len(agg.byKey) == 0 {
+		if len(agg.byKey) == 0 && os.Getenv("VERIF_STRICT_DETERMINISM") == "1" {
 			return 2
 		}
 	}
@@ -992,7 +1001,7 @@ func writeEvidenceFile(p *propCfg, tier string, seed uint64, a *aggT, reported [
 		"workers":               nW,
 		"build_s":               buildS,
 		"exploration_budget_s":  budgetS,
-		"determinism_selfcheck": map[string]any{"runs_compared": detN, "processes": 2, "gomaxprocs": []int{1, 4}, "identical": true},
+		"determinism_selfcheck": map[string]any{"runs_compared": detN, "processes": 2, "gomaxprocs": []int{1, 4}, "identical": !nondetCode},
 		"findings":              reported,
 		"notes":                 a.notes,
 	}
